@@ -680,7 +680,7 @@ fn run_multi(g: &FnGraph<Node>, cfgs: &[&AnyCfg], prefix: Vec<u16>, switch_bound
 
 fn to_runres(d: DriveRes, sh: &Sh) -> RunRes {
     let mut s = sh.borrow_mut();
-    RunRes { status: d.status, out: d.out, ev: std::mem::take(&mut s.ev), taken: std::mem::take(&mut s.local), polls: d.polls, states: d.states, diverged: false }
+    RunRes { status: d.status, out: d.out, ev: std::mem::take(&mut s.ev), taken: std::mem::take(&mut s.local), polls: d.polls, states: d.states, diverged: false, nested: vec![] }
 }
 
 fn solo(spec: &Spec, cfg: &AnyCfg, choices: Vec<u16>) -> SideRes {
